@@ -204,4 +204,813 @@ theorem elide_idem (p : Option (List Nat)) (l : List Stmt) : elide p (elide p l)
         simp [elide, h]
       rw [e2, ih]
 
+
+
+/-! ### roles -/
+
+theorem norm_rewrites_aux (l : List (Token × Role))
+    (h : ∀ p ∈ l, (p.2 = .dropEmpty → p.1.is ";") ∧ (p.2 = .dropSep → (p.1.is "," ∨ p.1.is ";")) ∧
+      (p.2 = .toOpenBrace → p.1.is "<") ∧ (p.2 = .toCloseBrace → p.1.is ">")) :
+    Rewrites l (l.flatMap normTok) := by
+  induction l with
+  | nil => exact .nil
+  | cons p l ih =>
+    have hp := h p (List.mem_cons_self ..)
+    have ih' := ih (fun q hq => h q (List.mem_cons_of_mem _ hq))
+    obtain ⟨t, r⟩ := p
+    cases r with
+    | keep => exact .keep t ih'
+    | dropEmpty => exact .dropEmpty t (hp.1 rfl) ih'
+    | dropSep => exact .dropSep t (hp.2.1 rfl) ih'
+    | toOpenBrace => exact .openBrace t (hp.2.2.1 rfl) ih'
+    | toCloseBrace => exact .closeBrace t (hp.2.2.2 rfl) ih'
+    | colonAfter => exact .colonAfter t ih'
+
+theorem annotateFrom_fst (st : AState) (ts : List Token) : (annotateFrom st ts).map (·.1) = ts := by
+  induction ts generalizing st with
+  | nil => rfl
+  | cons t rest ih => simp [annotateFrom, ih]
+
+theorem annotate_eq_zip (ts : List Token) : annotate ts = ts.zip (roles ts) :=
+  List.zip_of_prod (annotateFrom_fst {} ts) rfl
+
+theorem roles_length (ts : List Token) : (roles ts).length = ts.length := by
+  have h := congrArg List.length (annotateFrom_fst {} ts)
+  simpa [roles, annotate] using h
+
+/-! ### decoration: nothing lost -/
+
+theorem closePrev_toks (st : DState) (n : Nat) : toks (closePrev st n).1 = toks st.prev.toList := by
+  unfold closePrev
+  cases st.prev with
+  | none => rfl
+  | some p => simp only []; split <;> rfl
+
+theorem closePrev_comments (st : DState) (n : Nat) :
+    commentsOf (closePrev st n).1 ++ (closePrev st n).2 =
+      st.prev.toList.flatMap (·.lead) ++ st.pend.map (·.key) := by
+  unfold closePrev
+  cases st.prev with
+  | none => simp [commentsOf]
+  | some p =>
+    simp only []
+    split
+    · simp only [commentsOf, DTok.comments, List.flatMap_cons, List.flatMap_nil, List.append_nil,
+        Option.toList, List.append_assoc, ← List.map_append, List.take_append_drop]
+    · simp [commentsOf, DTok.comments]
+
+theorem decoAux_toks (st : DState) (ts : List Token) :
+    toks (decoAux st ts) = toks st.prev.toList ++ sig ts ++ [eofTok] := by
+  induction ts generalizing st with
+  | nil =>
+    simp only [decoAux, toks, List.map_append, sig, List.filter_nil, List.append_nil]
+    have := closePrev_toks st (if st.line = st.prevEnd then st.line + 1 else st.line)
+    simp only [toks] at this
+    rw [this]; rfl
+  | cons t ts ih =>
+    unfold decoAux
+    by_cases hw : t.kind = .ws
+    · simp only [hw, if_true]
+      rw [ih]
+      have : t.isSig = false := by simp [Token.isSig, hw]
+      simp [sig, List.filter_cons, this]
+    · simp only [hw, if_false]
+      by_cases hc : t.isComment = true
+      · simp only [hc, if_true]
+        rw [ih]
+        have : t.isSig = false := by
+          unfold Token.isComment at hc; unfold Token.isSig
+          cases hk : t.kind <;> simp_all
+        simp [sig, List.filter_cons, this]
+      · simp only [hc]
+        have hs : t.isSig = true := by
+          unfold Token.isComment at hc; unfold Token.isSig
+          cases hk : t.kind <;> simp_all
+        have h1 := closePrev_toks st st.line
+        simp only [toks] at h1 ih ⊢
+        simp only [Bool.false_eq_true, if_false, List.map_append, h1]
+        rw [ih]
+        simp [sig, List.filter_cons, hs]
+
+theorem decorate_toks_aux (ts : List Token) : toks (decorate ts) = sig ts ++ [eofTok] := by
+  unfold decorate; rw [decoAux_toks]; rfl
+
+theorem decoAux_comments (st : DState) (ts : List Token) :
+    commentsOf (decoAux st ts) =
+      st.prev.toList.flatMap (·.lead) ++ st.pend.map (·.key) ++ (comments ts).map commentKey := by
+  induction ts generalizing st with
+  | nil =>
+    simp only [decoAux, comments, List.filter_nil, List.map_nil, List.append_nil]
+    have := closePrev_comments st (if st.line = st.prevEnd then st.line + 1 else st.line)
+    rw [← this]
+    simp [commentsOf, DTok.comments]
+  | cons t ts ih =>
+    unfold decoAux
+    by_cases hw : t.kind = .ws
+    · simp only [hw, if_true]
+      rw [ih]
+      have : t.isComment = false := by simp [Token.isComment, hw]
+      simp [comments, List.filter_cons, this]
+    · simp only [hw, if_false]
+      by_cases hc : t.isComment = true
+      · simp only [hc, if_true]
+        rw [ih]
+        simp [comments, List.filter_cons, hc]
+      · simp only [hc]
+        have hc' : t.isComment = false := by simpa using hc
+        have h1 := closePrev_comments st st.line
+        simp only [Bool.false_eq_true, if_false]
+        have e : commentsOf ((closePrev st st.line).1 ++ decoAux
+            { prev := some { tok := t, lead := (closePrev st st.line).2 }, prevEnd := st.line + newlines t.text,
+              pend := [], line := st.line + newlines t.text } ts) =
+            commentsOf (closePrev st st.line).1 ++ ((closePrev st st.line).2 ++ (comments ts).map commentKey) := by
+          rw [commentsOf, List.flatMap_append, ← commentsOf, ← commentsOf, ih]
+          simp
+        rw [e, ← List.append_assoc, h1]
+        simp [comments, List.filter_cons, hc']
+
+theorem decorate_comments_aux (ts : List Token) :
+    commentsOf (decorate ts) = (comments ts).map commentKey := by
+  unfold decorate; rw [decoAux_comments]; rfl
+
+/-! ### body rewrites on decorated tokens -/
+
+/-- projection to (token, role) -/
+def proj (p : DTok × Role) : Token × Role := (p.1.tok, p.2)
+
+theorem absorb_proj (x : DTok × Role) (acc : List (DTok × Role)) :
+    (absorb x acc).map proj = proj x :: acc.map proj := by
+  unfold absorb
+  split <;> simp [proj]
+
+theorem moveSepTrail_proj (l : List (DTok × Role)) : (moveSepTrail l).map proj = l.map proj := by
+  induction l with
+  | nil => rfl
+  | cons x xs ih =>
+    show (absorb x (moveSepTrail xs)).map proj = _
+    rw [absorb_proj, ih]; rfl
+
+theorem normTokD_toks (p : DTok × Role) : toks (normTokD p) = normTok (proj p) := by
+  obtain ⟨d, r⟩ := p
+  cases r <;> rfl
+
+theorem flatMap_normTokD_toks (l : List (DTok × Role)) :
+    toks (l.flatMap normTokD) = (l.map proj).flatMap normTok := by
+  induction l with
+  | nil => rfl
+  | cons x xs ih =>
+    simp only [List.flatMap_cons, List.map_cons, toks, List.map_append] at ih ⊢
+    rw [ih]
+    have := normTokD_toks x
+    simp only [toks] at this
+    rw [this]
+
+theorem zip_proj (ds : List DTok) (rs : List Role) : (ds.zip rs).map proj = (toks ds).zip rs := by
+  induction ds generalizing rs with
+  | nil => rfl
+  | cons d ds ih =>
+    cases rs with
+    | nil => rfl
+    | cons r rs => simp [proj, toks] at ih ⊢; exact ih rs
+
+/-- the token projection of the decorated rewrite IS the token-level `norm` -/
+theorem normD_toks (ds : List DTok) : toks (normD ds) = norm (toks ds) := by
+  unfold normD annotateD norm
+  rw [flatMap_normTokD_toks, moveSepTrail_proj, zip_proj, annotate_eq_zip]
+
+theorem commentsOf_append (a b : List DTok) : commentsOf (a ++ b) = commentsOf a ++ commentsOf b := by
+  simp [commentsOf]
+
+theorem commentsOf_cons (a : DTok) (b : List DTok) : commentsOf (a :: b) = a.lead ++ a.trail ++ commentsOf b := by
+  simp [commentsOf, DTok.comments]
+
+theorem absorb_comments (x : DTok × Role) (acc : List (DTok × Role)) :
+    (commentsOf ((absorb x acc).map (·.1))).Perm (commentsOf ((x :: acc).map (·.1))) := by
+  unfold absorb
+  split
+  · rename_i s rest
+    simp only [List.map_cons, commentsOf_cons, List.append_nil, List.append_assoc]
+    refine List.Perm.append_left _ (List.Perm.append_left _ ?_)
+    rw [← List.append_assoc, ← List.append_assoc]
+    exact List.Perm.append_right _ List.perm_append_comm
+  · exact List.Perm.refl _
+
+theorem moveSepTrail_comments (l : List (DTok × Role)) :
+    (commentsOf ((moveSepTrail l).map (·.1))).Perm (commentsOf (l.map (·.1))) := by
+  induction l with
+  | nil => exact List.Perm.refl _
+  | cons x xs ih =>
+    show (commentsOf ((absorb x (moveSepTrail xs)).map (·.1))).Perm _
+    refine (absorb_comments x _).trans ?_
+    simp only [List.map_cons, commentsOf_cons]
+    exact List.Perm.append_left _ ih
+
+theorem flatMap_normTokD_comments (l : List (DTok × Role)) (h : dropsClean l = true) :
+    commentsOf (l.flatMap normTokD) = commentsOf (l.map (·.1)) := by
+  induction l with
+  | nil => rfl
+  | cons x xs ih =>
+    have hx : (!(x.2 = .dropEmpty || x.2 = .dropSep) || (x.1.lead.isEmpty && x.1.trail.isEmpty)) = true := by
+      have := List.all_eq_true.mp h x (List.mem_cons_self ..)
+      exact this
+    have hxs : dropsClean xs = true := by
+      unfold dropsClean at h ⊢
+      simp only [List.all_cons, Bool.and_eq_true] at h
+      exact h.2
+    simp only [List.flatMap_cons, List.map_cons, commentsOf_append, ih hxs, commentsOf_cons]
+    obtain ⟨d, r⟩ := x
+    cases r <;> simp_all [normTokD, commentsOf, DTok.comments]
+
+theorem zip_roles_fst (ds : List DTok) : (ds.zip (roles (toks ds))).map (·.1) = ds := by
+  apply List.map_fst_zip
+  rw [roles_length]; simp [toks]
+
+/-- the body rewrites lose no comment (when no dropped token carries one) -/
+theorem normD_comments (ds : List DTok) (h : dropsClean (annotateD ds) = true) :
+    (commentsOf (normD ds)).Perm (commentsOf ds) := by
+  unfold normD
+  rw [flatMap_normTokD_comments _ h]
+  unfold annotateD
+  have := moveSepTrail_comments (ds.zip (roles (toks ds)))
+  rw [zip_roles_fst] at this
+  exact this
+
+/-! ### statements: nothing lost -/
+
+theorem splitStmts_flatten (ts : List DTok) (depth : Nat) (cur : Stmt) :
+    (splitStmts ts depth cur).flatten = cur.reverse ++ ts := by
+  induction ts generalizing depth cur with
+  | nil =>
+    unfold splitStmts
+    cases cur <;> simp
+  | cons t ts ih =>
+    unfold splitStmts
+    simp only []
+    split
+    · rw [ih]; simp
+    · split
+      · split
+        · simp [ih]
+        · rw [ih]; simp
+      · split
+        · simp [ih]
+        · rw [ih]; simp
+
+/-- token conservation: the statements of a stream, concatenated, are the stream -/
+theorem stmts_flatten_aux (ds : List DTok) : (stmts ds).flatten = ds := by
+  unfold stmts; rw [splitStmts_flatten]; rfl
+
+theorem gapNormAux_toks (c : List CKey) (s : Stmt) : toks (gapNormAux c s) = toks s := by
+  induction s generalizing c with
+  | nil => rfl
+  | cons d rest ih =>
+    unfold gapNormAux
+    split <;> simp [toks] at ih ⊢ <;> exact ih _
+
+theorem gapNormAux_comments (c : List CKey) (s : Stmt) (h : s ≠ [] ∨ c = []) :
+    commentsOf (gapNormAux c s) = c ++ commentsOf s := by
+  induction s generalizing c with
+  | nil =>
+    rcases h with h | h
+    · exact absurd rfl h
+    · subst h; rfl
+  | cons d rest ih =>
+    unfold gapNormAux
+    split
+    · simp [commentsOf_cons, ih [] (Or.inr rfl)]
+    · rename_i hne
+      have hr : rest ≠ [] := by
+        intro e; subst e; simp at hne
+      simp [commentsOf_cons, ih _ (Or.inl hr)]
+
+theorem gapNorm_toks (s : Stmt) : stmtText (gapNorm s) = stmtText s := gapNormAux_toks [] s
+theorem gapNorm_comments (s : Stmt) : commentsOf (gapNorm s) = commentsOf s := by
+  unfold gapNorm; rw [gapNormAux_comments _ _ (Or.inr rfl)]; rfl
+
+theorem gapNorm_firstIs (s : Stmt) (w : String) : firstIs (gapNorm s) w = firstIs s w := by
+  cases s with
+  | nil => rfl
+  | cons d rest =>
+    unfold gapNorm gapNormAux
+    split <;> rfl
+
+/-! ### header partition -/
+
+theorem perm_insert_mid {α} (a b t : List α) (x : α) (h : (a ++ b).Perm t) : (a ++ x :: b).Perm (x :: t) :=
+  List.perm_middle.trans (List.Perm.cons x h)
+
+/-- the five classes partition the statements: hoisting loses and duplicates nothing -/
+theorem parseHeader_perm (ss : List Stmt) : (parseHeader ss).render.Perm ss := by
+  induction ss with
+  | nil => exact List.Perm.refl _
+  | cons s t ih =>
+    simp only [parseHeader, Header.render, ofCls] at ih ⊢
+    generalize hA : List.filter (fun x => decide (cls x = Cls.syn)) t = A at ih ⊢
+    generalize hB : List.filter (fun x => decide (cls x = Cls.pkg)) t = B at ih ⊢
+    generalize hC : List.filter (fun x => decide (cls x = Cls.imp)) t = C at ih ⊢
+    generalize hD : List.filter (fun x => decide (cls x = Cls.opt)) t = D at ih ⊢
+    generalize hE : List.filter (fun x => decide (cls x = Cls.rest)) t = E at ih ⊢
+    cases hc : cls s
+    all_goals
+      simp only [List.filter_cons, hc, decide_true, decide_false, if_true, if_false, reduceCtorEq,
+        Bool.false_eq_true, hA, hB, hC, hD, hE]
+    · exact List.Perm.cons _ ih
+    · have e : A ++ s :: B ++ C ++ D ++ E = A ++ s :: (B ++ C ++ D ++ E) := by simp
+      rw [e]; exact perm_insert_mid _ _ _ _ (by simpa using ih)
+    · have e : A ++ B ++ s :: C ++ D ++ E = (A ++ B) ++ s :: (C ++ D ++ E) := by simp
+      rw [e]; exact perm_insert_mid _ _ _ _ (by simpa using ih)
+    · have e : A ++ B ++ C ++ s :: D ++ E = (A ++ B ++ C) ++ s :: (D ++ E) := by simp
+      rw [e]; exact perm_insert_mid _ _ _ _ (by simpa using ih)
+    · have e : A ++ B ++ C ++ D ++ s :: E = (A ++ B ++ C ++ D) ++ s :: E := by simp
+      rw [e]; exact perm_insert_mid _ _ _ _ (by simpa using ih)
+
+/-! ### the checker's clauses -/
+
+theorem subtract_spec (ins outs el : List Stmt) (h : subtract ins outs = some el) :
+    (outs ++ el).Perm ins := by
+  induction outs generalizing ins with
+  | nil => simp [subtract] at h; subst h; exact List.Perm.refl _
+  | cons o os ih =>
+    unfold subtract at h
+    split at h
+    · rename_i hm
+      have := ih _ h
+      exact (List.Perm.cons o this).trans (List.perm_cons_erase hm).symm
+    · simp at h
+
+theorem subtract_self (l : List Stmt) : subtract l l = some [] := by
+  induction l with
+  | nil => rfl
+  | cons o os ih => simp [subtract, ih]
+
+/-! ### the relation the checker decides -/
+
+/-- the output imports are the input imports (decorated: tokens and comments) in any order, minus
+    the elided ones; an elided import carries no comment and imports a file that a kept statement
+    imports.  (When the modifiers `public`/`weak` of the two differ the input does not link:
+    "already imported"; golden test duplicate_import.proto documents that behaviour.) -/
+structure ImportsRel (ins outs : List Stmt) : Prop where
+  split : ∃ elided : List Stmt, (outs ++ elided).Perm ins ∧
+    ∀ e ∈ elided, stmtComments e = [] ∧ ∃ k ∈ outs, importName k = importName e
+
+/-- a STABLE reordering: a permutation that keeps the relative order of the statements of every
+    option name -/
+structure OptionsRel (ins outs : List Stmt) : Prop where
+  perm : outs.Perm ins
+  stable : ∀ k, outs.filter (optionKey · = k) = ins.filter (optionKey · = k)
+
+/-- hoisting + sorting of the file header, as a relation between the statement lists -/
+structure HeaderRel (si so : List Stmt) : Prop where
+  /-- syntax / edition, package, and everything that is not an import or a file option (messages,
+      enums, services, extends, the EOF token): the same statements — tokens and comments — in the
+      same order -/
+  syn : ofCls .syn so = ofCls .syn si
+  pkg : ofCls .pkg so = ofCls .pkg si
+  rest : ofCls .rest so = ofCls .rest si
+  imports : ImportsRel (ofCls .imp si) (ofCls .imp so)
+  options : OptionsRel (ofCls .opt si) (ofCls .opt so)
+
+theorem importsOK_sound (ins outs : List Stmt) (h : importsOK ins outs = true) : ImportsRel ins outs := by
+  unfold importsOK at h
+  split at h
+  · rename_i el hm
+    refine ⟨el, subtract_spec _ _ _ hm, ?_⟩
+    intro e he
+    have := (List.all_eq_true.mp h) e he
+    simp only [Bool.and_eq_true, List.isEmpty_iff, List.any_eq_true, decide_eq_true_eq] at this
+    exact this
+  · simp at h
+
+theorem importsOK_refl (l : List Stmt) : importsOK l l = true := by
+  simp [importsOK, subtract_self]
+
+theorem optionsOK_sound (ins outs : List Stmt) (h : optionsOK ins outs = true) : OptionsRel ins outs := by
+  unfold optionsOK at h
+  simp only [Bool.and_eq_true] at h
+  obtain ⟨hp, hall⟩ := h
+  have hperm : outs.Perm ins := List.isPerm_iff.mp hp
+  refine ⟨hperm, ?_⟩
+  intro k
+  by_cases hk : k ∈ ins.map optionKey
+  · have := (List.all_eq_true.mp hall) k hk
+    simpa using this
+  · have e1 : ins.filter (optionKey · = k) = [] := by
+      apply List.filter_eq_nil_iff.mpr
+      intro a ha hka
+      exact hk (List.mem_map.mpr ⟨a, ha, by simpa using hka⟩)
+    have e2 : outs.filter (optionKey · = k) = [] := by
+      apply List.filter_eq_nil_iff.mpr
+      intro a ha hka
+      exact hk (List.mem_map.mpr ⟨a, hperm.subset ha, by simpa using hka⟩)
+    rw [e1, e2]
+
+theorem optionsOK_refl (l : List Stmt) : optionsOK l l = true := by
+  unfold optionsOK
+  simp only [Bool.and_eq_true]
+  exact ⟨List.isPerm_iff.mpr (List.Perm.refl _), List.all_eq_true.mpr (fun k _ => by simp)⟩
+
+theorem headerOK_sound (si so : List Stmt) (h : headerOK si so = true) : HeaderRel si so := by
+  unfold headerOK at h
+  simp only [Bool.and_eq_true, beq_iff_eq] at h
+  obtain ⟨⟨⟨⟨h1, h2⟩, h3⟩, h4⟩, h5⟩ := h
+  exact ⟨h1, h2, h3, importsOK_sound _ _ h4, optionsOK_sound _ _ h5⟩
+
+theorem headerOK_refl (s : List Stmt) : headerOK s s = true := by
+  simp [headerOK, importsOK_refl, optionsOK_refl]
+
+/-- consequence: the output statements are a permutation of the input statements minus the
+    elided duplicate imports -/
+theorem HeaderRel.perm {si so : List Stmt} (h : HeaderRel si so) :
+    ∃ elided : List Stmt, (so ++ elided).Perm si ∧
+      ∀ e ∈ elided, cls e = .imp ∧ stmtComments e = [] ∧ ∃ k ∈ so, cls k = .imp ∧ importName k = importName e := by
+  obtain ⟨el, hp, hel⟩ := h.imports.split
+  refine ⟨el, ?_, ?_⟩
+  · have h1 := (parseHeader_perm so).symm
+    have h2 := parseHeader_perm si
+    refine ((List.Perm.append_right el h1).trans ?_).trans h2
+    simp only [parseHeader, Header.render, h.syn, h.pkg, h.rest]
+    generalize ofCls .syn si = A
+    generalize ofCls .pkg si = B
+    generalize ofCls .rest si = E
+    have ho := h.options.perm
+    -- A ++ B ++ I' ++ O' ++ E ++ el  ~  A ++ B ++ I ++ O ++ E
+    have step1 : (A ++ B ++ ofCls .imp so ++ ofCls .opt so ++ E ++ el).Perm
+        (A ++ B ++ (ofCls .imp so ++ el) ++ ofCls .opt so ++ E) := by
+      simp only [List.append_assoc]
+      refine List.Perm.append_left _ (List.Perm.append_left _ (List.Perm.append_left _ ?_))
+      have : (ofCls Cls.opt so ++ E ++ el).Perm (el ++ (ofCls Cls.opt so ++ E)) := List.perm_append_comm
+      simpa only [List.append_assoc] using this
+    refine step1.trans ?_
+    exact List.Perm.append_right _ (List.Perm.append (List.Perm.append_left _ hp) ho)
+  · intro e he
+    have hmem : e ∈ ofCls .imp si := hp.subset (List.mem_append_right _ he)
+    have hc : cls e = .imp := by
+      have := (List.mem_filter.mp hmem).2
+      simpa using this
+    obtain ⟨hcom, k, hk, hn⟩ := hel e he
+    have hk' := List.mem_filter.mp hk
+    exact ⟨hc, hcom, k, hk'.1, by simpa using hk'.2, hn⟩
+
+/-! ### comment anchors -/
+
+/-- where a comment is attached: to which token (index `idx`) of which file-level declaration
+    (its token text `decl`), as a leading or a trailing comment -/
+structure Anchor where
+  key : CKey
+  trailing : Bool
+  idx : Nat
+  decl : List Token
+  deriving DecidableEq, Repr
+
+def tokAnchors (decl : List Token) (d : DTok) (i : Nat) : List Anchor :=
+  d.lead.map (⟨·, false, i, decl⟩) ++ d.trail.map (⟨·, true, i, decl⟩)
+
+def stmtAnchorsFrom (decl : List Token) : Nat → Stmt → List Anchor
+  | _, [] => []
+  | i, d :: rest => tokAnchors decl d i ++ stmtAnchorsFrom decl (i + 1) rest
+
+def stmtAnchors (s : Stmt) : List Anchor := stmtAnchorsFrom (stmtText s) 0 s
+
+/-- all comment anchors of a list of declarations, in source order -/
+def anchors (ss : List Stmt) : List Anchor := ss.flatMap stmtAnchors
+
+theorem stmtAnchorsFrom_keys (decl : List Token) (i : Nat) (s : Stmt) :
+    (stmtAnchorsFrom decl i s).map (·.key) = commentsOf s := by
+  induction s generalizing i with
+  | nil => rfl
+  | cons d rest ih =>
+    simp [stmtAnchorsFrom, tokAnchors, commentsOf_cons, ih, Function.comp_def]
+
+theorem anchors_keys (ss : List Stmt) : (anchors ss).map (·.key) = commentsOf ss.flatten := by
+  induction ss with
+  | nil => rfl
+  | cons s t ih =>
+    simp only [anchors, List.flatMap_cons, List.map_append, List.flatten_cons, commentsOf_append] at ih ⊢
+    rw [ih]; unfold stmtAnchors; rw [stmtAnchorsFrom_keys]
+
+theorem stmtAnchors_nil_of_no_comments (s : Stmt) (h : stmtComments s = []) : stmtAnchors s = [] := by
+  have := stmtAnchorsFrom_keys (stmtText s) 0 s
+  unfold stmtComments at h
+  rw [h] at this
+  exact List.map_eq_nil_iff.mp this
+
+theorem commentsOf_flatten_gapNorm (ss : List Stmt) :
+    commentsOf (ss.map gapNorm).flatten = commentsOf ss.flatten := by
+  induction ss with
+  | nil => rfl
+  | cons s t ih => simp [commentsOf_append, gapNorm_comments, ih]
+
+theorem toks_flatten_gapNorm (ss : List Stmt) : toks (ss.map gapNorm).flatten = toks ss.flatten := by
+  induction ss with
+  | nil => rfl
+  | cons s t ih =>
+    have := gapNorm_toks s
+    simp only [stmtText, toks] at this ih ⊢
+    simp [this, ih]
+
+/-! ### streams without a rewritable token -/
+
+theorem absorb_keep (x : DTok × Role) (acc : List (DTok × Role)) (h : ∀ p ∈ acc, p.2 = .keep) :
+    absorb x acc = x :: acc := by
+  unfold absorb
+  split
+  · rename_i s rest
+    have := h (s, .dropSep) (List.mem_cons_self ..)
+    simp at this
+  · rfl
+
+theorem moveSepTrail_keep (l : List (DTok × Role)) (h : ∀ p ∈ l, p.2 = .keep) : moveSepTrail l = l := by
+  induction l with
+  | nil => rfl
+  | cons x xs ih =>
+    have hx := ih (fun p hp => h p (List.mem_cons_of_mem _ hp))
+    show absorb x (moveSepTrail xs) = _
+    rw [hx, absorb_keep _ _ (fun p hp => h p (List.mem_cons_of_mem _ hp))]
+
+theorem flatMap_normTokD_keep (l : List (DTok × Role)) (h : ∀ p ∈ l, p.2 = .keep) :
+    l.flatMap normTokD = l.map (·.1) := by
+  induction l with
+  | nil => rfl
+  | cons x xs ih =>
+    have hx := h x (List.mem_cons_self ..)
+    obtain ⟨d, r⟩ := x
+    simp only at hx; subst hx
+    simp [normTokD, ih (fun p hp => h p (List.mem_cons_of_mem _ hp))]
+
+theorem zip_roles_keep (ds : List DTok) (h : (roles (toks ds)).all (· = .keep) = true) :
+    ∀ p ∈ ds.zip (roles (toks ds)), p.2 = .keep := by
+  intro p hp
+  have := (List.of_mem_zip hp).2
+  have := List.all_eq_true.mp h _ this
+  simpa using this
+
+theorem annotateD_keep (ds : List DTok) (h : (roles (toks ds)).all (· = .keep) = true) :
+    annotateD ds = ds.zip (roles (toks ds)) :=
+  moveSepTrail_keep _ (zip_roles_keep ds h)
+
+/-- a stream in which every role is `keep` is a fixed point of the body rewrites -/
+theorem normD_keep (ds : List DTok) (h : (roles (toks ds)).all (· = .keep) = true) : normD ds = ds := by
+  unfold normD
+  rw [annotateD_keep ds h, flatMap_normTokD_keep _ (zip_roles_keep ds h), zip_roles_fst]
+
+theorem dropsClean_keep (ds : List DTok) (h : (roles (toks ds)).all (· = .keep) = true) :
+    dropsClean (annotateD ds) = true := by
+  rw [annotateD_keep ds h]
+  unfold dropsClean
+  apply List.all_eq_true.mpr
+  intro p hp
+  have := zip_roles_keep ds h p hp
+  simp [this]
+
+/-! ### the header rearrangement as a chain of elementary steps -/
+
+/-- two file-level statements whose relative order matters: same class, not imports, and for
+    options the same option name -/
+def conflict (a b : Stmt) : Prop :=
+  cls a = cls b ∧ cls a ≠ .imp ∧ (cls a = .opt → optionKey a = optionKey b)
+
+/-- ONE elementary header rewrite -/
+inductive HStep : List Stmt → List Stmt → Prop
+  /-- exchange two adjacent statements whose relative order does not matter: an import with
+      anything, statements of different classes (hoisting), two options with different names -/
+  | swap (l r : List Stmt) (a b : Stmt) : ¬ conflict a b → HStep (l ++ a :: b :: r) (l ++ b :: a :: r)
+  /-- remove an import statement that carries no comment and whose file another (remaining)
+      import statement imports -/
+  | elide (l r : List Stmt) (e k : Stmt) : cls e = .imp → stmtComments e = [] →
+      k ∈ l ++ r → cls k = .imp → importName k = importName e → HStep (l ++ e :: r) (l ++ r)
+
+/-- reflexive-transitive closure -/
+inductive HSteps : List Stmt → List Stmt → Prop
+  | refl (a) : HSteps a a
+  | step {a b c} : HStep a b → HSteps b c → HSteps a c
+
+theorem HSteps.trans {a b c : List Stmt} (h1 : HSteps a b) (h2 : HSteps b c) : HSteps a c := by
+  induction h1 with
+  | refl => exact h2
+  | step s _ ih => exact .step s (ih h2)
+
+theorem HStep.cons (x : Stmt) {a b : List Stmt} (h : HStep a b) : HStep (x :: a) (x :: b) := by
+  cases h with
+  | swap l r a b hc => exact .swap (x :: l) r a b hc
+  | elide l r e k h1 h2 h3 h4 h5 => exact .elide (x :: l) r e k h1 h2 (List.mem_cons_of_mem _ h3) h4 h5
+
+theorem HSteps.cons (x : Stmt) {a b : List Stmt} (h : HSteps a b) : HSteps (x :: a) (x :: b) := by
+  induction h with
+  | refl => exact .refl _
+  | step s _ ih => exact .step (s.cons x) ih
+
+/-- the classes inside which the order is kept -/
+inductive QClass : (Stmt → Bool) → Prop
+  | syn : QClass (fun s => decide (cls s = .syn))
+  | pkg : QClass (fun s => decide (cls s = .pkg))
+  | rest : QClass (fun s => decide (cls s = .rest))
+  | opt (k : List Nat) : QClass (fun s => decide (cls s = .opt) && decide (optionKey s = k))
+
+theorem conflict_of_class {q : Stmt → Bool} (hq : QClass q) {a b : Stmt} (ha : q a = true) (hb : q b = true) :
+    conflict a b := by
+  cases hq <;> simp only [Bool.and_eq_true, decide_eq_true_eq] at ha hb
+  · exact ⟨ha.trans hb.symm, by rw [ha]; simp, by rw [ha]; simp⟩
+  · exact ⟨ha.trans hb.symm, by rw [ha]; simp, by rw [ha]; simp⟩
+  · exact ⟨ha.trans hb.symm, by rw [ha]; simp, by rw [ha]; simp⟩
+  · exact ⟨ha.1.trans hb.1.symm, by rw [ha.1]; simp, fun _ => ha.2.trans hb.2.symm⟩
+
+theorem class_of_conflict {a b : Stmt} (h : conflict a b) : ∃ q, QClass q ∧ q a = true ∧ q b = true := by
+  obtain ⟨h1, h2, h3⟩ := h
+  cases hc : cls a
+  · exact ⟨_, .syn, by simp [hc], by simp [← h1, hc]⟩
+  · exact ⟨_, .pkg, by simp [hc], by simp [← h1, hc]⟩
+  · exact absurd hc h2
+  · exact ⟨_, .opt (optionKey a), by simp [hc], by simp [← h1, hc, h3 hc]⟩
+  · exact ⟨_, .rest, by simp [hc], by simp [← h1, hc]⟩
+
+theorem class_not_import {q : Stmt → Bool} (hq : QClass q) {e : Stmt} (he : cls e = .imp) : q e = false := by
+  cases hq <;> simp [he]
+
+/-- a statement moves to the front across statements it does not conflict with -/
+theorem bubble (A B : List Stmt) (x : Stmt) (h : ∀ a ∈ A, ¬ conflict a x) :
+    HSteps (A ++ x :: B) (x :: (A ++ B)) := by
+  induction A with
+  | nil => exact .refl _
+  | cons a A ih =>
+    have h1 := ih (fun y hy => h y (List.mem_cons_of_mem _ hy))
+    have h2 : HSteps (a :: (A ++ x :: B)) (a :: x :: (A ++ B)) := h1.cons a
+    exact h2.trans (.step (.swap [] (A ++ B) a x (h a (List.mem_cons_self ..))) (.refl _))
+
+theorem exists_first_split (o : Stmt) (l : List Stmt) (h : o ∈ l) : ∃ A B, l = A ++ o :: B ∧ o ∉ A := by
+  induction l with
+  | nil => simp at h
+  | cons y ys ih =>
+    by_cases hy : o = y
+    · exact ⟨[], ys, by simp [hy], by simp⟩
+    · have : o ∈ ys := by
+        rcases List.mem_cons.mp h with h | h
+        · exact absurd h hy
+        · exact h
+      obtain ⟨A, B, e, hn⟩ := ih this
+      refine ⟨y :: A, B, by simp [e], ?_⟩
+      intro hm
+      rcases List.mem_cons.mp hm with hm | hm
+      · exact hy hm
+      · exact hn hm
+
+/-- a permutation that keeps the order inside every class is reachable by swaps -/
+theorem sort_by_swaps (so si : List Stmt) (hp : so.Perm si)
+    (hq : ∀ q, QClass q → so.filter q = si.filter q) : HSteps si so := by
+  induction so generalizing si with
+  | nil => rw [List.Perm.eq_nil hp.symm]; exact .refl _
+  | cons o so ih =>
+    have ho : o ∈ si := hp.subset (List.mem_cons_self ..)
+    obtain ⟨A, B, e, hn⟩ := exists_first_split o si ho
+    subst e
+    -- nothing in A is in a class together with o
+    have hA : ∀ q, QClass q → q o = true → A.filter q = [] := by
+      intro q hQ hqo
+      have := hq q hQ
+      simp only [List.filter_cons, hqo, if_true, List.filter_append] at this
+      cases hf : A.filter q with
+      | nil => rfl
+      | cons a0 rest =>
+        rw [hf] at this
+        simp only [List.cons_append, List.cons.injEq] at this
+        have : a0 ∈ A := (List.mem_filter.mp (by rw [hf]; exact List.mem_cons_self ..)).1
+        rw [← ‹o = a0 ∧ _›.1] at this
+        exact absurd this hn
+    have hnc : ∀ a ∈ A, ¬ conflict a o := by
+      intro a ha hc
+      obtain ⟨q, hQ, hqa, hqo⟩ := class_of_conflict hc
+      have := hA q hQ hqo
+      have hm : a ∈ A.filter q := List.mem_filter.mpr ⟨ha, hqa⟩
+      rw [this] at hm
+      simp at hm
+    have hb := bubble A B o hnc
+    have hp' : so.Perm (A ++ B) := (List.Perm.cons_inv (hp.trans List.perm_middle))
+    have hq' : ∀ q, QClass q → so.filter q = (A ++ B).filter q := by
+      intro q hQ
+      have := hq q hQ
+      by_cases hqo : q o = true
+      · have hA' := hA q hQ hqo
+        simp only [List.filter_cons, hqo, if_true, List.filter_append, hA', List.nil_append,
+          List.cons.injEq, true_and] at this ⊢
+        exact this
+      · simp only [List.filter_cons, hqo, List.filter_append] at this ⊢
+        simpa using this
+    exact hb.trans ((ih (A ++ B) hp' hq').cons o)
+
+/-- the chain for a whole header relation: first the elisions, then the swaps -/
+theorem chain_of_perm (el so si : List Stmt) (hp : (so ++ el).Perm si)
+    (hq : ∀ q, QClass q → so.filter q = si.filter q)
+    (hel : ∀ e ∈ el, cls e = .imp ∧ stmtComments e = [] ∧ ∃ k ∈ so, cls k = .imp ∧ importName k = importName e) :
+    HSteps si so := by
+  induction el generalizing si with
+  | nil => exact sort_by_swaps so si (by simpa using hp) hq
+  | cons e el ih =>
+    have he : e ∈ si := hp.subset (by simp)
+    obtain ⟨A, B, rfl⟩ := List.append_of_mem he
+    obtain ⟨hc, hcom, k, hk, hkc, hkn⟩ := hel e (List.mem_cons_self ..)
+    have hp' : (so ++ el).Perm (A ++ B) := by
+      have h1 : (e :: (so ++ el)).Perm (so ++ e :: el) := List.perm_middle.symm
+      exact List.Perm.cons_inv ((h1.trans hp).trans List.perm_middle)
+    have hkm : k ∈ A ++ B := hp'.subset (List.mem_append_left _ hk)
+    have hq' : ∀ q, QClass q → so.filter q = (A ++ B).filter q := by
+      intro q hQ
+      have := hq q hQ
+      simp only [List.filter_append, List.filter_cons, class_not_import hQ hc] at this ⊢
+      simpa using this
+    exact .step (.elide A B e k hc hcom hkm hkc hkn)
+      (ih (A ++ B) hp' hq' (fun x hx => hel x (List.mem_cons_of_mem _ hx)))
+
+theorem HeaderRel.classes {si so : List Stmt} (h : HeaderRel si so) :
+    ∀ q, QClass q → so.filter q = si.filter q := by
+  intro q hQ
+  cases hQ with
+  | syn => exact h.syn
+  | pkg => exact h.pkg
+  | rest => exact h.rest
+  | opt k =>
+    have := h.options.stable k
+    simp only [ofCls, List.filter_filter] at this
+    simpa [Bool.and_comm] using this
+
+theorem HeaderRel.chain {si so : List Stmt} (h : HeaderRel si so) : HSteps si so := by
+  obtain ⟨el, hp, hel⟩ := h.perm
+  exact chain_of_perm el so si hp h.classes hel
+
+/-! ### what every elementary step preserves -/
+
+/-- the part of the meaning of a file that can be stated on statement lists: the syntax and
+    package statements and all declarations in their order; for every option name the sequence
+    of its statements (values of a repeated option keep their order); the SET of imported files;
+    the comments with their anchors -/
+structure SameMeaning (a b : List Stmt) : Prop where
+  classes : ∀ q, QClass q → b.filter q = a.filter q
+  imports : ∀ n, n ∈ (ofCls .imp b).map importName ↔ n ∈ (ofCls .imp a).map importName
+  comments : (anchors b).Perm (anchors a)
+
+theorem SameMeaning.refl (a : List Stmt) : SameMeaning a a :=
+  ⟨fun _ _ => rfl, fun _ => Iff.rfl, List.Perm.refl _⟩
+
+theorem SameMeaning.trans {a b c : List Stmt} (h1 : SameMeaning a b) (h2 : SameMeaning b c) : SameMeaning a c :=
+  ⟨fun q hq => (h2.classes q hq).trans (h1.classes q hq),
+   fun n => (h2.imports n).trans (h1.imports n), h2.comments.trans h1.comments⟩
+
+theorem HStep.sound {a b : List Stmt} (h : HStep a b) : SameMeaning a b := by
+  cases h with
+  | swap l r x y hc =>
+    refine ⟨?_, ?_, ?_⟩
+    · intro q hQ
+      by_cases hx : q x = true
+      · by_cases hy : q y = true
+        · exact absurd (conflict_of_class hQ hx hy) hc
+        · simp [List.filter_cons, hx, hy]
+      · simp [List.filter_cons, hx]
+    · intro n
+      have hp : (l ++ y :: x :: r).Perm (l ++ x :: y :: r) := List.Perm.append_left _ (List.Perm.swap ..)
+      have := ((hp.filter (cls · = .imp)).map importName)
+      exact ⟨fun h => this.subset h, fun h => this.symm.subset h⟩
+    · exact List.Perm.flatMap_right _ (List.Perm.append_left _ (List.Perm.swap ..))
+  | elide l r e k hc hcom hk hkc hkn =>
+    refine ⟨?_, ?_, ?_⟩
+    · intro q hQ
+      simp [List.filter_append, List.filter_cons, class_not_import hQ hc]
+    · intro n
+      simp only [ofCls, List.filter_append, List.filter_cons, hc, decide_true, if_true, List.map_append,
+        List.map_cons, List.mem_append, List.mem_cons]
+      constructor
+      · rintro (h | h)
+        · exact Or.inl h
+        · exact Or.inr (Or.inr h)
+      · rintro (h | h | h)
+        · exact Or.inl h
+        · subst h
+          rw [← hkn]
+          have : k ∈ List.filter (fun x => decide (cls x = Cls.imp)) (l ++ r) :=
+            List.mem_filter.mpr ⟨hk, by simp [hkc]⟩
+          rw [List.filter_append] at this
+          rcases List.mem_append.mp this with h | h
+          · exact Or.inl (List.mem_map_of_mem h)
+          · exact Or.inr (List.mem_map_of_mem h)
+        · exact Or.inr h
+    · simp only [anchors, List.flatMap_append, List.flatMap_cons, stmtAnchors_nil_of_no_comments e hcom,
+        List.nil_append]
+      exact List.Perm.refl _
+
+theorem HSteps.sound {a b : List Stmt} (h : HSteps a b) : SameMeaning a b := by
+  induction h with
+  | refl => exact SameMeaning.refl _
+  | step s _ ih => exact s.sound.trans ih
+
+/-! ### example texts used by the non-vacuity examples of Props/C07 -/
+
+/-- a real run: imports sorted (the trailing comment travels with its import), `<>` → `{}`, the
+    separator `,` dropped and its trailing comment moved to the value, empty statement dropped -/
+def exIn : Str := "import \"b\";import \"a\"; // ia\noption x={a:1, // s\n b<>};;message M{int32 a=1; // ta\n /* lb */ int32 b=2;}".toList
+def exOut : Str := "import \"a\"; // ia\nimport \"b\";\n\noption x = {\n  a: 1 // s\n  b: {}\n};\n\nmessage M {\n  int32 a = 1; // ta\n  /* lb */\n  int32 b = 2;\n}\n".toList
+
+
+/-- `import "a";` and `message M {}` as statements -/
+def exStmtA : Stmt := [⟨⟨.ident, "import".toList⟩, [], []⟩, ⟨⟨.str, "\"a\"".toList⟩, [], []⟩, ⟨sym ";", [], []⟩]
+def exStmtB : Stmt := [⟨⟨.ident, "message".toList⟩, [], []⟩, ⟨⟨.ident, "M".toList⟩, [], []⟩, ⟨sym "{", [], []⟩, ⟨sym "}", [], []⟩]
+
+instance (a b : Stmt) : Decidable (conflict a b) := by unfold conflict; infer_instance
+
 end BufModel.Format
